@@ -6,6 +6,7 @@ import (
 	"verifharness/internal/hk"
 	_ "verifharness/props/c01"
 	_ "verifharness/props/c02"
+	_ "verifharness/props/c03"
 	_ "verifharness/props/c04"
 	_ "verifharness/props/c08"
 	_ "verifharness/props/c09"
